@@ -325,7 +325,7 @@ func main() {
 		"corpus/C38/*.json (exact inputs of findings) run first; while such an input still fails its snippet class is switched off in the generator.")
 	wd := vh.NewWatchdog(rep, 120*time.Second)
 
-	nprog, maxDepth := 260, 5
+	nprog, maxDepth := 220, 5
 	if a.Thorough() {
 		nprog, maxDepth = 6000, 7
 	}
@@ -361,7 +361,7 @@ func main() {
 			wd.Beat(u)
 			var got obs
 			if u.isolated != "" {
-				got = runIsolated(u.isolated, 15*time.Second)
+				got = runIsolated(u.isolated, 6*time.Second)
 			} else {
 				got = newInterp().runClassic(u)
 			}
